@@ -15,9 +15,18 @@ NOT_DECIDED = "the classification of every term of every ontology (depends on C0
 ONT = "ontology::Ontology::"
 
 
-def lookup_consts(b, atoms):
-    """constants used as key of the Ontology::hpo lookups a value derives from"""
+def lookup_consts(b, atoms, op=None, pvn=None):
+    """constants used as key of the Ontology::hpo lookups a value derives from.  With `op`: read off the receiver chain of that operand
+    (`root.children_ids().iter()` <- `root` <- `self.hpo(1)?`), which stays exact when whole-`self` provenance smears"""
     out = set()
+    if op is not None and pvn is not None:
+        from engines import receiver_calls
+        for c in receiver_calls(b, pvn, op):
+            if c.callee.res == ONT + "hpo" and len(c.args) > 1:
+                k = c.args[1]
+                out.add(k.const["val"] if k.kind == "const" else "<non-constant>")
+        if out:
+            return out
     for a in atoms:
         if a[0] == "call" and a[1] == ONT + "hpo" and a[3] == b.id:
             t = b.blocks[a[4]].term
@@ -42,7 +51,13 @@ def analyse(ck, prog, pv, pvn, name, fieldname):
             fieldname = fl[0]
     assigns = [(pos, s) for pos, s in b.stmts() if s.k == "assign" and any(e != "*" and e[0] == "f" and e[1] == fieldname and e[2].endswith("Ontology") for e in s.place.fields())]
     if not assigns:
-        ck.ob("ROLE", name + "/assign", False, "%s never assigns self.%s" % (name, fieldname), where=b.where())
+        # a write through an accessor (`*self.classification.categories_mut() = computed`) or a setter of a private sub-struct
+        indirect = [s for _, s in b.stmts() if s.k == "assign" and s.place.proj and s.place.proj[0] == "*" and any(a[0] == "call" and a[3] == b.id and a[1] in prog.bodies for a in pvn.of_local(b, s.place.local))]
+        indirect += [t for _, t in b.calls() if (t.callee.res or "") in prog.bodies and prog.bodies[t.callee.res].sig and re.search(r"fn\(&'?\w* ?mut ", prog.bodies[t.callee.res].sig or "") and t.args and fieldname in field_names(pvn.of_operand(b, t.args[0]), "Ontology")]
+        if indirect:
+            ck.undecided("ROLE", name + "/assign", "%s stores its result through an accessor / a private sub-structure of self.%s: the sources of the stored set are not traced" % (name, fieldname), where=b.where())
+        else:
+            ck.ob("ROLE", name + "/assign", False, "%s never assigns self.%s" % (name, fieldname), where=b.where())
         return None
     filters = [(bi, t) for bi, t in b.calls() if t.callee.trait == "std::iter::Iterator" and t.callee.method == "filter"]
     chains = [(bi, t) for bi, t in b.calls() if t.callee.trait == "std::iter::Iterator" and t.callee.method == "chain"]
@@ -80,8 +95,9 @@ def analyse(ck, prog, pv, pvn, name, fieldname):
     if not filters:
         return res
     bi, t = filters[0]
-    recv = pv.of_operand(b, t.args[0])
-    res["filtered_const"] = lookup_consts(b, recv)
+    pvc = Prov(prog, mutflow=False)  # without mutation smear: the assignment to self.<field> must not flow back into what was read from self before
+    recv = pvc.of_operand(b, t.args[0])
+    res["filtered_const"] = lookup_consts(b, recv, t.args[0], pvn)
     ck.ob("ROLE", name + "/filtered-root", res["filtered_const"] == {"1_u32"}, "the filtered children are those of the term looked up with %s (expected the constant 1)" % sorted(res["filtered_const"]), where=b.where(t.line))
     cid = pv.closure_of_operand(b, t.args[1])
     cb = prog.bodies.get(cid)
@@ -106,14 +122,16 @@ def analyse(ck, prog, pv, pvn, name, fieldname):
         elif not chains:
             ck.ob("ROLE", name + "/chain", False, "categories do not include the children of PHENOTYPE_ID (no second source)", where=b.where())
         for cbi, ctm in chains:
-            second = pv.of_operand(b, ctm.args[1])
-            lc = lookup_consts(b, second)
+            second = pvc.of_operand(b, ctm.args[1])
+            lc = lookup_consts(b, second, ctm.args[1], pvn)
             fl = term_fields(second)
             ok = lc == {"PHENOTYPE_ID"} and "children" in fl and not (fl & {"all_parents", "parents"})
             ck.ob("ROLE", name + "/chain", ok, "categories chain the %s of the term looked up with %s (expected children of PHENOTYPE_ID)" % (sorted(fl & {"children", "all_parents", "parents"}), sorted(lc)), where=b.where(ctm.line))
-            filt2 = any(a[0] == "call" and a[1].endswith("::filter") for a in second)
+            from engines import receiver_calls as _rc
+            ch2 = _rc(b, pvn, ctm.args[1])
+            filt2 = any(c_.callee.method == "filter" for c_ in ch2) if ch2 else any(a[0] == "call" and a[1].endswith("::filter") for a in second)
             ck.ob("SELECT", name + "/chain-unfiltered", not filt2, "the phenotype children are %s" % ("taken unfiltered" if not filt2 else "filtered too"), where=b.where(ctm.line))
-            first = pv.of_operand(b, ctm.args[0])
+            first = pvc.of_operand(b, ctm.args[0])
             ck.ob("ROLE", name + "/chain-first", any(a[0] == "call" and a[1].endswith("::filter") for a in first), "the first half of the chain is the filtered children of the root", where=b.where(ctm.line))
     return res
 
@@ -168,6 +186,18 @@ def run(ck, prog, ctx):
                             region = bd.region((sbi, tg))
                             if any(bd.blocks[r].term.k == "call" and bd.blocks[r].term.callee.method == "from_residual" for r in region) or any(st.k == "assign" and st.rv["k"] == "agg" and st.rv.get("variant") == "Err" for r in region for st in bd.blocks[r].stmts):
                                 ok = True
+            if not ok and not calls:
+                # the defaults may be computed by the private code the two setters share and stored directly (`ont.classification = defaults_for(&ont)?`)
+                acc_ = prog.body(ONT + nm.replace("set_default_", ""))
+                fl_ = sorted({a[2] for a in pv.of_return(acc_) if a[0] == "field" and a[1].endswith("::Ontology")}) if acc_ is not None else []
+                setter_ = prog.body(ONT + nm)
+                shared = set()
+                if setter_ is not None:
+                    shared = {x for x in prog.reachable_bodies([setter_.id]) if x in prog.bodies and x != setter_.id and prog.bodies[x].kind in ("Fn", "AssocFn") and not (prog.bodies[x].exported or prog.bodies[x].reachable)} & prog.reachable_bodies([bd.id])
+                writes_field = any(s_.k == "assign" and any(e != "*" and e[0] == "f" and e[1] in fl_ and e[2].endswith("Ontology") for e in s_.place.fields()) for _, s_ in bd.stmts())
+                if writes_field and shared:
+                    ck.undecided("DOM", "build_with_defaults/" + nm, "build_with_defaults does not call %s but assigns self.%s from private code that %s uses as well (%s): not compared" % (nm, "/".join(fl_), nm, sorted(prog.bodies[x].short for x in shared)[0]), where=bd.where())
+                    continue
             ck.ob("DOM", "build_with_defaults/" + nm, ok, "build_with_defaults %s" % ("calls %s and propagates its error" % nm if ok else ("does not call %s" % nm if not calls else "ignores the result of %s" % nm)), where=bd.where())
     # inclusive membership predicates (shared with C14)
     sites = [s for s in membership_sites(prog, pv, Prov(prog, bind_closures=False)) if "HpoTerm::<" in (prog.bodies[s["body"].root].id if s["body"].kind == "Closure" and s["body"].root in prog.bodies else s["body"].id)]
@@ -175,7 +205,9 @@ def run(ck, prog, ctx):
         b = s["body"]
         owner = prog.bodies[b.root].short if b.kind == "Closure" and b.root in prog.bodies else b.short
         ck.ob("SIBLING", "membership/" + owner, s["inclusive"], "%s tests the %s roots against %s" % (owner, s["root"], " ∪ ".join(s["fields"])), where=b.where(s["term"].line))
-    ck.floor("SIBLING", "membership predicates on HpoTerm", len(sites), 2, soft=bool(sites))
+    from props.shared import reaches_membership_test as _rmt
+    _im = prog.body("term::hpoterm::HpoTerm::<'a>::is_modifier")
+    ck.floor("SIBLING", "membership predicates on HpoTerm", len(sites), 2, soft=bool(sites) or (_im is not None and _rmt(prog, _im) is not None))
 
     # ---- accessors: a method named after a field returns that field, not a sibling of the same type
     ck.rule("GETTER", "an accessor `f()` / `f_mut()` of a struct with a field `f` (or its documented alias) derives its result from that field (DESIGN 3.9)")
